@@ -108,3 +108,135 @@ def add_class_arguments_unit(prop):
 
 
 UNITS = [add_class_arguments_unit("C07")]
+
+
+# ------------------------------------------------------------------------------------- add_method_arguments / add_function_arguments
+def ama_setup(ctx):
+    is_class = ctx.choose(2, "theclass-is-a-class") == 1
+    member = ["callable-member", "non-callable-member", "no-such-member"][ctx.choose(3, "themethod")]
+    theclass = ClassRef("TheClass") if is_class else Rec("not a class")
+    ctx.classes.add("TheClass", [])
+    method = Rec("function run")
+    flags = {k: Rec(k) for k in ("nested_key", "as_group", "as_positional", "skip", "fail_untyped", "sub_configs")}
+    added = Rec("list of added keys")
+    self = Rec("ArgumentParser", methods={"_add_signature_arguments": lambda c, s_, a, k: (c.event("declare", list(a), dict(k)), added)[1]})
+    calls = {"get_unaliased_type": lambda c, a, k: a[0], "get_generic_origin": lambda c, a, k: a[0], "inspect.isclass": lambda c, a, k: isinstance(a[0], ClassRef),
+             "hasattr": lambda c, a, k: a[1] == "run" and member != "no-such-member", "getattr": lambda c, a, k: method if member == "callable-member" else 7,
+             "callable": lambda c, a, k: a[0] is method}
+    return Setup(env={"self": self, "theclass": theclass, "themethod": "run", **flags}, calls=calls, data=dict(is_class=is_class, member=member, theclass=theclass, flags=flags, added=added))
+
+
+def ama_post(ctx, st, result):
+    d = st.data
+    f = d["flags"]
+    ctx.oblige("post", "accepted=>a-class-with-a-callable-member-of-that-name", d["is_class"] and d["member"] == "callable-member")
+    dec = [e for e in ctx.events if e[0] == "declare"]
+    ok = len(dec) == 1 and result is d["added"]
+    if ok:
+        a, k = dec[0][1], dec[0][2]
+        ok = len(a) == 7 and a[0] is d["theclass"] and a[1] == "run" and all(x is f[n] for x, n in zip(a[2:], ("nested_key", "as_group", "as_positional", "skip", "fail_untyped"))) and set(k) == {"sub_configs"} and k["sub_configs"] is f["sub_configs"]
+    ctx.oblige("post", "the-method's-parameters-are-declared-once:(class,method name,nested key,group/positional flags,skip,fail_untyped,sub_configs)-in-their-roles;the-declared-keys-are-returned", ok)
+
+
+def ama_raises(ctx, st, exc):
+    d = st.data
+    ctx.oblige("raises", "refused=>ValueError:not-a-class,or-no-callable-member-of-that-name;nothing-declared", exc.cls == "ValueError" and not (d["is_class"] and d["member"] == "callable-member") and not ctx.events)
+
+
+def add_method_arguments_unit(prop):
+    return Unit(prop, "jsonargparse._signatures:SignatureArguments.add_method_arguments", ama_setup, ama_post, ama_raises, expect_cover=("return", "raise:ValueError"),
+                trusted=["_add_signature_arguments: its own unit", "inspect.isclass / hasattr / getattr / callable as documented (A4)"])
+
+
+def afa_setup(ctx):
+    kind = ["function", "callable-instance", "not-callable"][ctx.choose(3, "function")]
+    cls_of = Rec("class of the instance")
+    fn = Rec("the function", attrs={"__class__": cls_of})
+    flags = {k: Rec(k) for k in ("nested_key", "as_group", "as_positional", "skip", "fail_untyped", "sub_configs")}
+    added = Rec("list of added keys")
+    self = Rec("ArgumentParser", methods={"_add_signature_arguments": lambda c, s_, a, k: (c.event("declare", list(a), dict(k)), added)[1]})
+    calls = {"callable": lambda c, a, k: kind != "not-callable", "hasattr": lambda c, a, k: True, "callable_instances": lambda c, a, k: kind == "callable-instance" and a[0] is cls_of}
+    return Setup(env={"self": self, "function": fn, **flags}, calls=calls, data=dict(kind=kind, fn=fn, cls_of=cls_of, flags=flags, added=added))
+
+
+def afa_post(ctx, st, result):
+    d = st.data
+    f = d["flags"]
+    ctx.oblige("post", "accepted=>callable", d["kind"] != "not-callable")
+    dec = [e for e in ctx.events if e[0] == "declare"]
+    ok = len(dec) == 1 and result is d["added"]
+    if ok:
+        a, k = dec[0][1], dec[0][2]
+        want0, want1 = (d["cls_of"], "__call__") if d["kind"] == "callable-instance" else (d["fn"], None)
+        ok = len(a) == 7 and a[0] is want0 and a[1] == want1 and all(x is f[n] for x, n in zip(a[2:], ("nested_key", "as_group", "as_positional", "skip", "fail_untyped"))) and set(k) == {"sub_configs"} and k["sub_configs"] is f["sub_configs"]
+    ctx.oblige("post", f"the-parameters-of-the-function(of the class's __call__ for a callable instance)-are-declared-once,every-argument-in-its-role;the-declared-keys-are-returned[{d['kind']}]", ok)
+
+
+def afa_raises(ctx, st, exc):
+    ctx.oblige("raises", "refused=>ValueError-for-something-not-callable;nothing-declared", exc.cls == "ValueError" and st.data["kind"] == "not-callable" and not ctx.events)
+
+
+def add_function_arguments_unit(prop):
+    return Unit(prop, "jsonargparse._signatures:SignatureArguments.add_function_arguments", afa_setup, afa_post, afa_raises, expect_cover=("return", "raise:ValueError"),
+                trusted=["_add_signature_arguments: its own unit", "callable_instances(cls) tells classes whose instances are callable"])
+
+
+# ------------------------------------------------------------------------------------- add_subclass_arguments
+def asub_setup(ctx):
+    base_kind = ["one-class", "tuple-of-two", "empty-tuple", "dataclass-like", "tuple-with-a-non-class"][ctx.choose(5, "baseclass")]
+    skip_given = ctx.choose(2, "skip-given") == 1
+    default_given = ctx.choose(2, "default-given") == 1
+    A, B, N = Rec("class A", attrs={"ok": True}), Rec("class B", attrs={"ok": True}), Rec("int-like", attrs={"ok": False})
+    baseclass = {"one-class": A, "tuple-of-two": (A, B), "empty-tuple": (), "dataclass-like": A, "tuple-with-a-non-class": (A, N)}[base_kind]
+    group = Rec("group")
+    flags = {k: Rec(k) for k in ("as_group", "instantiate", "required")}
+    dflt = Rec("default given")
+    kwargs = {"default": dflt} if default_given else {}
+    self = Rec("ArgumentParser", attrs={"logger": Rec("logger")})
+    self.methods["_create_group_if_requested"] = lambda c, s_, a, k: (c.event("group", list(a), dict(k)), group)[1]
+    self.methods["_add_signature_parameter"] = lambda c, s_, a, k: c.event("param", list(a), dict(k), None if a[4] is None else set(a[4]))
+    calls = {"is_dataclass_like": lambda c, a, k: base_kind == "dataclass-like", "ActionTypeHint.is_subclass_typehint": lambda c, a, k: a[0].attrs["ok"] and k.get("also_lists") is True,
+             "get_doc_short_description": lambda c, a, k: ("doc-of", a[0]), "ParamData": lambda c, a, k: Rec("ParamData", attrs=dict(k)),
+             "get_subclass_names": lambda c, a, k: ("names-of", a[0]), "iter_to_set_str": lambda c, a, k: "{A,B}", "Union.__getitem__": lambda c, a, k: ("Union", a[0])}
+    consts = {"Union": Rec("Union", methods={"__getitem__": lambda c, s_, a, k: ("Union", a[0])})}
+    env = {"self": self, "baseclass": baseclass, "nested_key": "m", "skip": {"x", "y"} if skip_given else None, "metavar": "MV", "help": "any subclass of %(baseclass_name)s.", "kwargs": kwargs, **flags}
+    return Setup(env=env, calls=calls, consts=consts, data=dict(base_kind=base_kind, skip_given=skip_given, default_given=default_given, baseclass=baseclass, group=group, flags=flags, dflt=dflt, self_=self, A=A))
+
+
+def asub_post(ctx, st, result):
+    d = st.data
+    f = d["flags"]
+    tag = f"[{d['base_kind']},skip={'given' if d['skip_given'] else 'None'},default={'given' if d['default_given'] else 'omitted'}]"
+    ctx.oblige("post", "accepted=>one-class-or-a-non-empty-tuple-of-classes,none-of-them-dataclass-like" + tag, d["base_kind"] in ("one-class", "tuple-of-two"))
+    bases = d["baseclass"] if isinstance(d["baseclass"], tuple) else (d["baseclass"],)
+    g = [e for e in ctx.events if e[0] == "group"]
+    ok = len(g) == 1
+    if ok:
+        a, k = g[0][1], g[0][2]
+        ok = len(a) == 4 and a[0] == bases and a[1] == "m" and a[2] is f["as_group"] and a[3] == (("doc-of", d["A"]) if len(bases) == 1 else None) and k == {"config_load": False, "required": f["required"], "instantiate": False}
+    ctx.oblige("post", "the-group-is-created-for-the-base-classes-under-the-nested-key(no whole-group loader,not instantiated as a group,required as asked)" + tag, ok)
+    p = [e for e in ctx.events if e[0] == "param"]
+    ok = len(p) == 1
+    if ok:
+        a, k, skip_then = p[0][1], p[0][2], p[0][3]
+        param = a[2]
+        ok = (len(a) == 5 and a[0] is d["group"] and a[1] is None and isinstance(param, Rec) and param.attrs.get("name") == "m" and param.attrs.get("annotation") == ("Union", bases) and param.attrs.get("component") == bases
+              and a[3] == [] and skip_then == ({"m.init_args.x", "m.init_args.y"} if d["skip_given"] else None)
+              and k.get("sub_configs") is True and k.get("instantiate") is f["instantiate"] and k.get("metavar") == "MV" and k.get("help") == "any subclass of {A,B}."
+              and (k.get("default") is d["dflt"] if d["default_given"] else ("default" in k and k["default"] is None)) and set(k) == {"sub_configs", "instantiate", "metavar", "help", "default"})
+    ctx.oblige("post", "one-parameter-named-by-the-nested-key,typed-Union[the base classes],is-declared-in-that-group:skipped-names-address-its-init_args,sub-configs-on,default-None-unless-given,help-names-the-subclasses" + tag, ok)
+
+
+def asub_raises(ctx, st, exc):
+    d = st.data
+    ctx.oblige("raises", f"refused=>ValueError-for-a-dataclass-like-class,an-empty-tuple-or-a-member-that-is-no-subclass-type;nothing-declared[{d['base_kind']}]",
+               exc.cls == "ValueError" and d["base_kind"] in ("empty-tuple", "dataclass-like", "tuple-with-a-non-class") and not ctx.events)
+
+
+def add_subclass_arguments_unit(prop):
+    return Unit(prop, "jsonargparse._signatures:SignatureArguments.add_subclass_arguments", asub_setup, asub_post, asub_raises, expect_cover=("return", "raise:ValueError"),
+                trusted=["_create_group_if_requested / _add_signature_parameter: their own units (C07, C12)", "ActionTypeHint.is_subclass_typehint / is_dataclass_like classify the classes (A4)",
+                         "get_subclass_names / iter_to_set_str / get_doc_short_description only produce help text"])
+
+
+UNITS += [add_method_arguments_unit("C12"), add_function_arguments_unit("C12"), add_subclass_arguments_unit("C14")]
